@@ -158,12 +158,12 @@ func (r *armoredReader) Read(p []byte) (int, error) {
 	if len(line) > format.ColumnsPerLine {
 		return 0, r.setErr(errors.New("column limit exceeded"))
 	}
-	r.unread = r.buf[:]
-	n, err := base64.StdEncoding.Strict().Decode(r.unread, line)
+	// Only make the decoded line available once it is known to be acceptable:
+	// a Read after a failure must not release stale or unverified bytes.
+	n, err := base64.StdEncoding.Strict().Decode(r.buf[:], line)
 	if err != nil {
 		return 0, r.setErr(err)
 	}
-	r.unread = r.unread[:n]
 
 	if n < format.BytesPerLine {
 		line, err := getLine()
@@ -175,6 +175,7 @@ func (r *armoredReader) Read(p []byte) (int, error) {
 		}
 		r.setErr(drainTrailing())
 	}
+	r.unread = r.buf[:n]
 
 	nn := copy(p, r.unread)
 	r.unread = r.unread[nn:]
